@@ -156,6 +156,21 @@ def find_folds(fn):
         I = I0
         none_var = None
         test = I.test
+        extra_filters = []
+        if isinstance(test, ast.BoolOp) and isinstance(test.op, ast.And) and core_comparison(test) is None:
+            # `<filters> and key(cand) >= incumbent`: the conjunct that compares with a variable updated in the body is the fold's
+            # comparison, the other conjuncts are filters on the candidate (they must not mention that variable)
+            stored = {norm_src(t) for s2 in I.body if isinstance(s2, ast.Assign) for t in s2.targets}
+            picks = [v for v in test.values if isinstance(v, ast.Compare) and len(v.ops) == 1 and type(v.ops[0]) in _OPS and
+                     (norm_src(v.left) in stored or norm_src(v.comparators[0]) in stored)]
+            if len(picks) == 1:
+                inc = norm_src(picks[0].left) if norm_src(picks[0].left) in stored else norm_src(picks[0].comparators[0])
+                others = [v for v in test.values if v is not picks[0]]
+                if not any(inc == norm_src(n) for v in others for n in ast.walk(v) if isinstance(n, (ast.Name, ast.Attribute))):
+                    # short-circuit order: filters written after the comparison are evaluated only when it holds - as a set of
+                    # conditions for the update this is the same conjunction
+                    test = picks[0]
+                    extra_filters = [(norm_src(v), True) for v in others]
         if isinstance(test, (ast.BoolOp, ast.UnaryOp)):
             cc = core_comparison(test)
             if cc is None:
@@ -204,6 +219,7 @@ def find_folds(fn):
         for p, child in chain:
             if isinstance(p, ast.If):
                 f.filters.append((norm_src(p.test), child in p.body))
+        f.filters.extend(extra_filters)
         # outermost loop of the nest
         outer = inner
         while True:
